@@ -81,8 +81,11 @@ const STRS: &[&str] = &["", "abc", "a b", "with \\\"quote\\\"", "line\\nbreak", 
 pub fn gen_sx(r: &mut Rng, depth: u32, documented: bool) -> (String, String) {
     let atom = |r: &mut Rng| -> (String, String) {
         match r.below(if documented { 13 } else { 17 }) {
-            0 => { let n = r.below(100000); (n.to_string(), n.to_string()) }
-            1 => { let n = r.below(100000); (format!("-{}", n), format!("-{}", n)) }
+            // integers within i32 (the property's range: an unsuffixed Rust integer literal is an i32), floats in every spelling (fraction, exponent only, both)
+            0 => { let n = if r.chance(1, 4) { *r.pick(&[2147483647u64, 2147483646, 1073741824, 65536]) } else { r.below(100000) }; (n.to_string(), n.to_string()) }
+            1 => { let n = if r.chance(1, 4) { *r.pick(&[2147483648u64, 2147483647, 1073741824, 65536]) } else { r.below(100000) }; (format!("-{}", n), format!("-{}", n)) }
+            2 if r.chance(1, 3) => { let t = *r.pick(&["1e21", "1e5", "5e-3", "2E3", "3e0", "1.5e3", "1e-7", "4.0e2", "6.02e23", "1e300"]); (t.to_string(), t.to_string()) }
+            3 if r.chance(1, 3) => { let t = *r.pick(&["1e21", "1e5", "5e-3", "4e2", "2.5E-3", "1e300"]); (format!("-{}", t), format!("-{}", t)) }
             2 => { let f = r.below(10000) as f64 / 8.0 + 0.5; (format!("{:?}", f), format!("{:?}", f)) }
             3 => { let f = r.below(10000) as f64 / 8.0 + 0.5; (format!("-{:?}", f), format!("-{:?}", f)) }
             4 => { let s = *r.pick(STRS); (format!("\"{}\"", s), format!("\"{}\"", s)) }
